@@ -450,7 +450,8 @@ def check_c13(tier, seed, wd):
     def ref(name, opts):
         key = (name, tuple(opts))
         if key not in refs:
-            rc, out, err = run(B['mt'], list(opts) + ['-T1', '-c', files[name][0]]); ctx.calls += 1
+            rc, out, err = run(B['mt'], list(opts) + ['-T1', '-c', files[name][0]], timeout=90); ctx.calls += 1
+            if rc == 124: ctx.fail('sched_real_binary_hangs', 'lz4 %s -T1 on %s (%d bytes) did not terminate within 90 s (natural schedule)' % (' '.join(opts), name, len(files[name][1])))
             refs[key] = out if rc == 0 else None
         return refs[key]
     nruns = 160 if ctx.thorough else 36
